@@ -284,4 +284,9 @@ CONTRACTS = [
                       "NM_kept": "all(NM(self, n) == NM(old(self), n) for n in V(old(self)))",
                       "weighted": "weighted(self) == weighted(old(self))", "HM": "HM(self) == HM(old(self))"}},
       properties=["C03", "C19"]),
+    Contract("degree[TemporalHypergraph]", "hypergraphx/measures/degree.py", ["degree"], properties=["C03", "C08"],
+      params={"hg": "Obj[TemporalHypergraph]", "node": "Node", "order": "Opt[Int]", "size": "Opt[Int]"}, result="Int", pure=True,
+      requires={"wf": "wf(hg)"},
+      raises={"ValueError": "(order is not None and size is not None) or node not in V(hg)"},
+      ensures={"result": "result == card({k for k in E(hg) if node in snd(k) and sel(hg, k, order, size, False)})"}),
 ]
